@@ -82,6 +82,7 @@ type Obs struct {
 	TargetRegNil []bool         // per death: the target id was unregistered when its ActorStoppedEvent was seen
 	PID          *actor.PID
 	Senders      []*actor.PID
+	FinalRegNil  bool   // the target id was unregistered when the history ended
 	Diverged     string // non-empty: the run was cut short because the actor contradicted the model
 }
 
@@ -662,6 +663,7 @@ func Run(spec Spec, waitOrphans bool) (*Obs, *Sim, error) {
 	if err := fence(); err != nil {
 		return nil, nil, err
 	}
+	obs.FinalRegNil = e.Registry.GetPID("target", "1") == nil
 	w.mu.Lock()
 	obs.Log = append([]Entry(nil), w.log...)
 	obs.Events = append([]Event(nil), w.events...)
